@@ -4,8 +4,10 @@ package c19
 
 import (
 	"encoding/binary"
+	"encoding/json"
 	"fmt"
 	"os"
+	"path/filepath"
 	"strings"
 	"testing"
 	"time"
@@ -593,4 +595,38 @@ func trunc(b []byte, n int) []byte {
 		return b[:n]
 	}
 	return b
+}
+
+// TestProbes (only with C19_CHECK_PROBES=1) runs the minimal input of every root cause found on
+// the unrepaired tree (testdata/probes) and says which of them still reproduce.
+func TestProbes(t *testing.T) {
+	if os.Getenv("C19_CHECK_PROBES") == "" {
+		t.Skip("C19_CHECK_PROBES not set")
+	}
+	files, _ := filepath.Glob("testdata/probes/*.json")
+	sortStrings(files)
+	for _, f := range files {
+		c, err := hx.LoadCase[Case](f)
+		if err != nil {
+			t.Errorf("%s: %v", f, err)
+			continue
+		}
+		b, _ := os.ReadFile(f)
+		var meta struct{ Verdict, What string }
+		json.Unmarshal(b, &meta)
+		in, _, _ := c.input()
+		o := run(c)
+		state := "does not reproduce"
+		for _, v := range o.Violations {
+			if v.Sig == meta.Verdict {
+				state = "REPRODUCES"
+			}
+		}
+		fmt.Printf("PROBE %-34s %-18s %s  input=%x\n      %s\n", filepath.Base(f), state, meta.Verdict, trunc(in, 48), meta.What)
+		for _, v := range o.Violations {
+			if v.Sig != meta.Verdict {
+				fmt.Printf("      also: %s\n", v.Sig)
+			}
+		}
+	}
 }
